@@ -11,3 +11,8 @@ open PedVerif.Retry
 #print axioms retry_source_shape
 #print axioms cfg_handler
 #print axioms retryFor_spec
+#print axioms cfg_no_hidden_state
+#print axioms loopP_eq_loop
+#print axioms retryForP_spec
+#print axioms retryDecorated_spec
+#print axioms overlapping_calls_independent
